@@ -473,3 +473,49 @@ pub proof fn vx_lemma_rank_bool(s: Seq<bool>, i: int)
         vx_lemma_rank_step(s, false, i - 1);
     }
 }
+
+/// occurrences of the symbols below d plus occurrences of d never exceed the length
+pub open spec fn vx_below(s: Seq<u8>, d: int) -> int
+    decreases d
+{
+    if d <= 0 { 0 } else { vx_below(s, d - 1) + vx_cnt(s, (d - 1) as u8) }
+}
+
+pub proof fn vx_lemma_below_push(s: Seq<u8>, x: u8, d: int)
+    requires 0 <= d <= 256
+    ensures vx_below(s.push(x), d) == vx_below(s, d) + (if (x as int) < d { 1int } else { 0int })
+    decreases d
+{
+    if d > 0 {
+        vx_lemma_below_push(s, x, d - 1);
+        vx_lemma_filter_push(s, vx_eqv((d - 1) as u8), x);
+    }
+}
+
+pub proof fn vx_lemma_below_le(s: Seq<u8>, d: int)
+    requires 0 <= d <= 255
+    ensures vx_below(s, d) + vx_cnt(s, d as u8) <= s.len(), 0 <= vx_below(s, d)
+    decreases s.len()
+{
+    if s.len() == 0 {
+        vx_lemma_below_empty(s, d + 1);
+        assert(vx_below(s, d + 1) == vx_below(s, d) + vx_cnt(s, d as u8));
+        vx_lemma_below_empty(s, d);
+    } else {
+        let s0 = s.drop_last();
+        let x = s.last();
+        assert(s == s0.push(x));
+        vx_lemma_below_le(s0, d);
+        vx_lemma_below_push(s0, x, d);
+        vx_lemma_filter_push(s0, vx_eqv(d as u8), x);
+    }
+}
+
+pub proof fn vx_lemma_below_empty(s: Seq<u8>, d: int)
+    requires s.len() == 0, 0 <= d
+    ensures vx_below(s, d) == 0
+    decreases d
+{
+    reveal(Seq::filter);
+    if d > 0 { vx_lemma_below_empty(s, d - 1); }
+}
